@@ -2237,7 +2237,11 @@ impl<'input, T: Input> Scanner<'input, T> {
 
         loop {
             self.input.lookahead(4);
-            if (self.leading_whitespace && self.input.next_is_document_indicator())
+            // (`---` and `...` are document markers at the start of a line only; indented, they
+            // are ordinary text.)
+            if (self.leading_whitespace
+                && self.mark.col == 0
+                && self.input.next_is_document_indicator())
                 || self.input.peek() == '#'
             {
                 break;
